@@ -418,6 +418,9 @@ def check_memoised(model, rep, R='C12.reset', only=None):
 
 
 def check(model, rep):
+    # hidden state Python keeps outside the objects (not modelled by the evaluator): reported before anything else is evaluated
+    from checks.solver_common import package_lints as _package_lints
+    _package_lints(model, rep, 'C12.hidden-state', ('/solver.py', '/powertrain.py', '/motor_control/', '/sensors/', '/stop_condition/', '/mechanical_objects/'))
     from checks.solver_common import absorb_arith, TIME_ARITH, EULER_ARITH, KIN_ARITH, TORQUE_ARITH
     absorb_arith(model, rep, 'C12.dep.arith', TIME_ARITH + EULER_ARITH, solver_log=True)      # a rerun starts from the same constants only if the step's arithmetic leaves them alone
     rep.explain('C12: on the solver IR the continuation branch of Solver.run must reach the stepping loop without writing '
